@@ -288,7 +288,7 @@ func (i *instance) AcmeUpdate() {
 	}
 }
 
-func (i *instance) HAProxyUpdate(timer *utils.Timer) error {
+func (i *instance) HAProxyUpdate(timer *utils.Timer) (err error) {
 	// nil config, just ignore
 	if i.config == nil {
 		return nil
@@ -299,7 +299,16 @@ func (i *instance) HAProxyUpdate(timer *utils.Timer) error {
 	//   - i.metrics.IncUpdate<Status>() should be called always, but only once
 	//   - i.updateSuccessful(<bool>) should be called only if haproxy is reloaded or cfg is validated
 	//
-	defer i.config.Commit()
+	defer func() {
+		if err != nil {
+			// The changes were not fully applied, so the current state cannot be
+			// seen as the state of the running instance. Drop it, so the next
+			// reconciliation rebuilds, writes and reloads the whole configuration.
+			i.config.Clear()
+		} else {
+			i.config.Commit()
+		}
+	}()
 	i.config.SyncConfig()
 	i.config.Shrink()
 	if err := i.config.WriteTCPServicesMaps(); err != nil {
